@@ -770,6 +770,7 @@ func (p *Process) setStateAndRun(state string, runnable func() error) error {
 }
 
 func (p *Process) onStateChange(state string) {
+	verifPoint(p, "state_enter", state)
 	defer verifPoint(p, "state", state)
 	switch state {
 	case types.ProcessStateSkipped:
